@@ -232,7 +232,20 @@ def worker(spec):
         th.start()
         th.join(300)
         if "exc" in box:
-            raise box["exc"]
+            ex = box["exc"]
+            tb = ex.__traceback__
+            in_lib = False
+            while tb is not None:
+                if os.path.dirname(os.path.abspath(tb.tb_frame.f_code.co_filename)) == PKGDIR:
+                    in_lib = True
+                tb = tb.tb_next
+            if not in_lib:
+                raise ex
+            # the library raised where it should have returned a slice of the stack
+            res.evaluations += 1
+            res.violation(kind="slice-mismatch", plan=p, api="(raised)", case="exception out of stackscope",
+                          problem="raised %r" % (ex,), interp=interp)
+            continue
         res.count("plans")
         if "G" in p or "U" in p or "X" in p:
             res.count("plans_with_greenlets")
